@@ -1328,12 +1328,31 @@ package graphql
 //@   props C02
 //@   nosafety
 //@   assigns nothing
+// (verified, were trusted) what the key hashes of a value: a kind byte and then, for free text (string
+// literals), the LENGTH, a colon and the text — no string content can imitate the delimiters that follow it;
+// lists and objects hash every item / field in order between brackets.
 //@ func fingerprintWriter.writeValue
-//@   trusted
+//@   props C06
+//@   nosafety
 //@   assigns nothing
+//@   ensures typeis(v, "*ast.StringValue") && as(v, "*ast.StringValue") != nil ==> calls("Itoa") == 1 && calls("writeString") == 2 && calls("writeByte") == 2
+//@   at call Itoa: assert arg0 == len(n.Value)
+//@   at call writeString#4: assert calls("Itoa") == 1 && arg1 == lastresult("Itoa")
+//@   at call writeString#5: assert arg1 == n.Value && calls("writeByte") == 2
+//@   loop 1 over n.Values
+//@   loop 1 ensures calls("writeValue") == atloop(1, calls("writeValue")) + 1 && calls("writeByte") == atloop(1, calls("writeByte")) + 1
+//@   at call writeValue#1: assert arg1 == item
+//@   loop 2 over n.Fields
+//@   at call writeValue#2: assert arg1 == f.Value
+//@   loop 2 ensures f != nil && f.Name != nil ==> calls("writeValue") == atloop(2, calls("writeValue")) + 1 && calls("writeString") == atloop(2, calls("writeString")) + 1 && calls("writeByte") == atloop(2, calls("writeByte")) + 2
 //@ func fingerprintWriter.writeType
-//@   trusted
+//@   props C06
+//@   nosafety
 //@   assigns nothing
+//@   ensures typeis(t, "*ast.NonNull") && as(t, "*ast.NonNull") != nil ==> calls("writeType") == 1 && calls("writeByte") == 1
+//@   ensures typeis(t, "*ast.List") && as(t, "*ast.List") != nil ==> calls("writeType") == 1 && calls("writeByte") == 2
+//@   at call writeType#1: assert arg1 == tt.Type
+//@   at call writeType#2: assert arg1 == tt.Type
 
 // Each field selection contributes its alias AND its name; every spread hashes the fragment body.
 //@ func fingerprintWriter.writeSelectionSet
